@@ -57,3 +57,49 @@ CHECKS["C20"] = dict(
     assumptions=["pthread primitives behave as modelled in sim/thr/thrsim.cpp", "pop() is only called when an item is available (std::queue precondition)",
                  "bare-metal variants (semaphore.cpp, syslock_irqs.c) are not compiled on this platform and not simulated"],
 )
+
+_LINK_IGRIS = ["igris/protocols/gstuff.cpp", "igris/protocols/gstuff_v1/gstuff.c", "igris/protocols/gstuff_v1/autorecv.c"]
+CHECKS["C04"] = dict(
+    engine="E3-link",
+    level="exploration",
+    mode="asan",
+    defs=["-DLINK_FAULTS=0", "-w"],
+    harness=["harness/C04_C05_link.cpp"],
+    igris=_LINK_IGRIS,
+    runs=dict(quick=60000, thorough=2500000),
+    design_ref="DESIGN.md 4.3, 5 (C04)",
+    technique="deterministic simulation of sender -> byte channel -> receiver in the fault-free configuration, reference encoder/decoder oracle, ASan on exact-size buffers",
+    level_text="seeded exploration of traffic (1-5 back-to-back frames, marker-heavy payloads, CRC steered onto markers, iovec partitions) through the "
+               "real encoders and the real receivers over a fault-free simulated link: frame format, exactly-once in-order delivery on the last byte, "
+               "content equality, output-buffer bounds. Sampling, not proof",
+    level_note="trusted: the reference encoder/unescape/CRC-8 in the harness; ASan for bounds; this is the fault-free configuration of the C05 world",
+    rule="one run = one seeded traffic of 1..5 frames for one framing variant (configurable v1 alphabet, configurable start==stop alphabet, legacy C) "
+         "and one encoder entry point, delivered byte by byte without faults. non-trivial = some payload byte or the CRC needed escaping; "
+         "distinct = distinct hash of the (byte, receiver status) sequence",
+    simtime_units="bytes delivered over the simulated link",
+    probes=["crc_is_marker", "all_bytes_escaped", "empty_payload", "empty_iovec_piece", "max_expansion"],
+    assumptions=["receive buffer of at least n+2 bytes (the property's 'large enough buffer')", "caller-supplied encoder output buffers are 2n+4 bytes"],
+)
+CHECKS["C05"] = dict(
+    engine="E3-link",
+    level="fault_enumeration",
+    mode="asan",
+    defs=["-DLINK_FAULTS=1", "-w"],
+    harness=["harness/C04_C05_link.cpp"],
+    igris=_LINK_IGRIS,
+    runs=dict(quick=30000, thorough=1200000),
+    design_ref="DESIGN.md 4.3, 5 (C05), 11 A.2",
+    technique="deterministic link simulation with fault injection (drop, truncate, flip, replace/insert marker bytes, duplicate, noise, CRC-completing bytes, "
+              "receiver restart, undersized buffers); per-traffic enumeration of every single-fault offset; reference unescape/CRC oracle evaluated at every byte",
+    level_text="seeded traffic (2-6 frames + noise) with faults attached to frames; one third of the runs enumerate a single fault of one kind at every byte "
+               "offset of the traffic. After every byte: capacity bound (S1), soundness of every completed packet against the bytes since the last start marker (S2); "
+               "after the last fault: resynchronisation within one frame (two when start==stop) (S3) and overflow reporting (S4). Sampling of traffic, enumeration of fault offsets",
+    level_note="trusted: reference unescape/CRC in the harness; ASan for memory safety; relaxation under faults is narrow: a damaged frame may be dropped or "
+               "reported as an error, never delivered altered",
+    rule="one run = one seeded traffic for one receiver variant and capacity with 0-3 attached faults, or (sweep runs) the traffic replayed once per byte offset with "
+         "a single fault there. non-trivial = a fault landed strictly inside a frame and a later well-formed frame existed that the receiver had to deliver; "
+         "distinct = distinct hash of the (byte, status) sequence",
+    simtime_units="bytes delivered over the simulated link",
+    probes=["frame_too_long_for_buffer", "one_byte_too_long", "cap_2", "accidental_crc_match", "crc_completing_byte"],
+    assumptions=["capacity >= 2", "receiver restart = init()/setbuf on a zeroed legacy struct"],
+)
